@@ -17,6 +17,7 @@
   proves that `Document(str)` always produces such lines (`C01_block_document`).
 -/
 import Mistletoe.Proofs.BlockTotal
+import Mistletoe.Proofs.DocTotal
 import Mistletoe.Props.C13
 namespace Mistletoe.Props.C01
 open Mistletoe Mistletoe.Py Mistletoe.Scan Mistletoe.Block Mistletoe.Lines
@@ -34,14 +35,14 @@ theorem C01_tokenize_block_no_raise (cfg : Cfg) (gas : Nat) (lines : List Line) 
     (hl : AllNlEnd lines) (h : tokenizeBlock cfg gas lines start st = .err e) : e = .fuel :=
   tokenizeBlock_no_raise cfg gas lines start st e hl h
 
-/-- **The block phase terminates and returns.**  With at least `gasBound cfg (docLines lines)` gas
+/-- **The block phase terminates and returns.**  With at least `gasBound cfg (docBuf lines)` gas
     — `(W + 1) * (2 * W + number of token types + 4)` where `W` is the number of characters of the
     document, a tab counting 4 — the block phase of any list of complete lines returns a parse
     buffer: no exception, no exhausted fuel in any inner loop, no exhausted gas.  (Nesting is
     bounded because `Quote.read` / `ListItem.read` hand strictly less weight to the nested
     `tokenize_block`; every loop round of every reader consumes a line.) -/
 theorem C01_block_terminates (cfg : Cfg) (gas : Nat) (lines : List Str) (hl : ∀ s ∈ lines, NlEnd s)
-    (hg : gasBound cfg (docLines lines) ≤ gas) : ∃ r, blockPhase cfg gas lines = .ok r :=
+    (hg : gasBound cfg (docBuf lines) ≤ gas) : ∃ r, blockPhase cfg gas lines = .ok r :=
   blockPhase_total cfg gas lines hl hg
 
 /-- the same for `tokenize_block` on any buffer of complete lines -/
@@ -51,9 +52,9 @@ theorem C01_tokenize_block_terminates (cfg : Cfg) (gas : Nat) (lines : List Line
 
 /-- the closed form of the bound: `W` is the sum over the lines of their length, tabs counting 4 -/
 theorem C01_gasBound_closed_form (cfg : Cfg) (lines : List Str) :
-    gasBound cfg (docLines lines) =
+    gasBound cfg (docBuf lines) =
       ((lines.map sw).sum + 1) * (2 * (lines.map sw).sum + cfg.types.length + 4) := by
-  unfold gasBound gasK; rw [lw_docLines]
+  unfold gasBound gasK; rw [lw_docBuf]
 
 /-- **More gas never changes the result**: a buffer returned with gas `g` is returned with every
     `g' ≥ g`. -/
@@ -63,14 +64,14 @@ theorem C01_block_gas_mono (cfg : Cfg) (lines : List Str) (r : Buf × St) (g g' 
 
 /-- hence the gas is irrelevant from `gasBound` on: the model has one well-defined result -/
 theorem C01_block_gas_irrelevant (cfg : Cfg) (gas : Nat) (lines : List Str) (hl : ∀ s ∈ lines, NlEnd s)
-    (hg : gasBound cfg (docLines lines) ≤ gas) :
-    blockPhase cfg gas lines = blockPhase cfg (gasBound cfg (docLines lines)) lines :=
+    (hg : gasBound cfg (docBuf lines) ≤ gas) :
+    blockPhase cfg gas lines = blockPhase cfg (gasBound cfg (docBuf lines)) lines :=
   blockPhase_gas_irrelevant cfg gas lines hl hg
 
 /-- **For a document given as one string** (`Document(text)`): the block phase returns, whatever
     the text. -/
 theorem C01_block_document (cfg : Cfg) (t : Str) :
-    ∃ r, blockPhase cfg (gasBound cfg (docLines (normalize (.str t)))) (normalize (.str t)) = .ok r :=
+    ∃ r, blockPhase cfg (gasBound cfg (docBuf (normalize (.str t)))) (normalize (.str t)) = .ok r :=
   C01_block_terminates cfg _ _ (C13.normalize_str_nlEnd t) (Nat.le_refl _)
 
 /-! ### Non-vacuity -/
@@ -88,7 +89,7 @@ example : ∀ s ∈ sampleDoc, NlEnd s := by
   decide
 
 /-- the bound, computed -/
-example : gasBound sampleCfg (docLines sampleDoc) = 4830 := by decide +kernel
+example : gasBound sampleCfg (docBuf sampleDoc) = 4830 := by decide +kernel
 
 /-- the shape of the result: quote [ list [ item [ paragraph, codeFence ] ] ], footnote, blockCode -/
 def shapeOk : Res (Buf × St) → Bool
@@ -97,7 +98,7 @@ def shapeOk : Res (Buf × St) → Bool
   | _ => false
 
 /-- `C01_block_terminates` on the sample: with `gasBound` gas the block phase returns the nested buffer -/
-example : shapeOk (blockPhase sampleCfg (gasBound sampleCfg (docLines sampleDoc)) sampleDoc) = true := by decide +kernel
+example : shapeOk (blockPhase sampleCfg (gasBound sampleCfg (docBuf sampleDoc)) sampleDoc) = true := by decide +kernel
 
 /-- `C01_block_no_raise` is not vacuous: with too little gas the model does report an error, and
     it is `.fuel` -/
@@ -125,7 +126,182 @@ example (g : Nat) (hg : 28 ≤ g) : shapeOk (blockPhase sampleCfg g sampleDoc) =
     rw [h] at this; exact this
 
 /-- `C01_block_document` on a concrete string -/
-example : ∃ r, blockPhase sampleCfg (gasBound sampleCfg (docLines (normalize (.str "> - a\n>   b".toList))))
+example : ∃ r, blockPhase sampleCfg (gasBound sampleCfg (docBuf (normalize (.str "> - a\n>   b".toList))))
     (normalize (.str "> - a\n>   b".toList)) = .ok r := C01_block_document sampleCfg _
+
+/-! ## The block token constructors (`Document(lines)`)
+
+  `Document.parseLines cfg gas lines` is the block phase followed by `make_tokens`: the constructors of
+  block_token.py (`Model/Document.lean`), which index into the buffers the readers returned
+  (`List.__init__`: `self.children[0].leader`; `Table.__init__`: `lines[1]`, `parse_align(column)`;
+  `SetextHeading.__init__`: `lines.pop()`) and start the inline phase on each leaf. -/
+
+/-- **Every parse buffer is well-formed, at every depth** (`Block.EntryWF`): a heading has level
+    1..6; a list has at least one item and every item's leader is a bullet or 1–9 digits and a
+    delimiter (so `int(leader[:-1])` is defined); a table buffer has at least two lines, the second
+    matching `delimiter_row_pattern` and containing '-'; a setext buffer has at least two lines;
+    a paragraph at least one; a Footnote entry at least one definition. -/
+theorem C01_block_buffer_wf (cfg : Cfg) (gas : Nat) (lines : List Str) (b : Buf) (st : St)
+    (hl : ∀ s ∈ lines, NlEnd s) (h : blockPhase cfg gas lines = .ok (b, st)) : EntriesWF b.entries :=
+  blockPhase_wf cfg gas lines b st hl h
+
+/-- for C12: every heading entry at any depth has a level in 1..6 -/
+theorem C01_heading_level_range (cfg : Cfg) (gas : Nat) (lines : List Str) (b : Buf) (st : St)
+    (hl : ∀ s ∈ lines, NlEnd s) (h : blockPhase cfg gas lines = .ok (b, st))
+    (lvl : Nat) (c cl : Str) (ln og : Nat) (hm : Entry.heading lvl c cl ln og ∈ subEntriesL b.entries) : 1 ≤ lvl ∧ lvl ≤ 6 :=
+  blockPhase_heading_level cfg gas lines b st hl h lvl c cl ln og hm
+
+/-- for C12: every list entry at any depth has at least one item (and well-formed items) -/
+theorem C01_list_nonempty (cfg : Cfg) (gas : Nat) (lines : List Str) (b : Buf) (st : St)
+    (hl : ∀ s ∈ lines, NlEnd s) (h : blockPhase cfg gas lines = .ok (b, st))
+    (items : List Item) (ln og : Nat) (hm : Entry.list items ln og ∈ subEntriesL b.entries) : 1 ≤ items.length ∧ ItemsWF items :=
+  blockPhase_list_nonempty cfg gas lines b st hl h items ln og hm
+
+/-- `Table.parse_align` is never handed an empty column: every column `column_align_pattern.findall`
+    returns is non-empty (for every row, delimiter row or not) -/
+theorem C01_table_columns_nonempty (row : Str) : ∀ c ∈ findAligns row, c ≠ [] := findAligns_ne row
+
+/-- **`Document(lines)` never raises.**  Hypothesis `hinl`: the inline phase returns on every
+    string under the configured span tokens and every definitions table
+    (`∀ fn s, ∃ ks, tokenizeInner cfg.span fn s = .ok ks`; discharged by the inline totality proof).
+    Then for every gas and every list of complete lines, the only error `parseLines` can report is
+    `.fuel`: no `IndexError` in `List.__init__`, `Table.__init__`, `Table.parse_align`,
+    `SetextHeading.__init__`, no `ValueError` in `int(leader[:-1])`, and none of the block-phase errors. -/
+theorem C01_document_no_raise (cfg : Document.Cfg) (gas : Nat) (lines : List Str) (hl : ∀ s ∈ lines, NlEnd s)
+    (hinl : ∀ fn s, ∃ ks, Inline.tokenizeInner cfg.span fn s = .ok ks) (e : Err)
+    (h : Document.parseLines cfg gas lines = .err e) : e = .fuel :=
+  Document.parseLines_no_raise cfg gas lines hl hinl e h
+
+/-- **`Document(lines)` terminates and returns** with `gasBound` gas (same hypothesis `hinl` on the
+    inline phase as `C01_document_no_raise`). -/
+theorem C01_document_terminates (cfg : Document.Cfg) (gas : Nat) (lines : List Str) (hl : ∀ s ∈ lines, NlEnd s)
+    (hinl : ∀ fn s, ∃ ks, Inline.tokenizeInner cfg.span fn s = .ok ks)
+    (hg : gasBound cfg.block (docBuf lines) ≤ gas) : ∃ d, Document.parseLines cfg gas lines = .ok d :=
+  Document.parseLines_total cfg gas lines hl hinl hg
+
+/-- more gas never changes the document -/
+theorem C01_document_gas_mono (cfg : Document.Cfg) (lines : List Str) (d : Doc) (g g' : Nat) (hle : g ≤ g')
+    (h : Document.parseLines cfg g lines = .ok d) : Document.parseLines cfg g' lines = .ok d :=
+  Document.parseLines_gas_mono cfg lines d g g' hle h
+
+/-- the same for `Document(text)` given one `str`: no hypothesis on the text -/
+theorem C01_document_str_no_raise (cfg : Document.Cfg) (gas : Nat) (t : Str)
+    (hinl : ∀ fn s, ∃ ks, Inline.tokenizeInner cfg.span fn s = .ok ks) (e : Err)
+    (h : Document.parse cfg gas t = .err e) : e = .fuel :=
+  C01_document_no_raise cfg gas _ (C13.normalize_str_nlEnd t) hinl e h
+
+theorem C01_document_str_terminates (cfg : Document.Cfg) (gas : Nat) (t : Str)
+    (hinl : ∀ fn s, ∃ ks, Inline.tokenizeInner cfg.span fn s = .ok ks)
+    (hg : gasBound cfg.block (docBuf (normalize (.str t))) ≤ gas) : ∃ d, Document.parse cfg gas t = .ok d :=
+  C01_document_terminates cfg gas _ (C13.normalize_str_nlEnd t) hinl hg
+
+/-! ### Non-vacuity -/
+
+def docCfg : Document.Cfg :=
+  { block := { types := [.htmlBlock, .blockCode, .heading, .quote, .codeFence, .thematicBreak, .list, .table, .footnote, .paragraph] },
+    span := [.escapeSequence, .htmlSpan, .autoLink, .coreTokens, .inlineCode, .lineBreak, .strikethrough] }
+
+/-- a setext heading, a quote holding an ordered list that starts at 3 (with emphasis inside), an
+    ATX heading.  (No table here: `Document.zipLongest` of `Model/Document.lean` is compiled by
+    well-founded recursion, so the kernel cannot evaluate `TableRow`; the table buffer is checked
+    at the block level below.) -/
+def docSample : List Str := ["Title\n", "=====\n", "> 3. *x*\n", "## h\n"].map String.toList
+
+theorem docSample_nlEnd : ∀ s ∈ docSample, NlEnd s := by
+  intro s hs; apply C13.nlEnd_of_check; revert s; decide
+
+def docShapeOk : Res Doc → Bool
+  | .ok ⟨[.setextHeading 1 _ [.rawText _] 1,
+          .quote [.list false (some 3) [.listItem _ 0 3 false [.paragraph [.emphasis _ _] 3] 3] 3] 3,
+          .heading 2 _ _ 4], []⟩ => true
+  | _ => false
+
+example : gasBound docCfg.block (docBuf docSample) = 1782 := by decide +kernel
+
+/-- the whole of `Document(lines)` evaluated by the kernel with `gasBound` gas: it returns the
+    document (so the conclusion of `C01_document_terminates` holds on the sample, inline phase included) -/
+example : docShapeOk (Document.parseLines docCfg (gasBound docCfg.block (docBuf docSample)) docSample) = true := by
+  decide +kernel
+
+/-- with too little gas the error is `.fuel` (the hypothesis of `C01_document_no_raise` is satisfiable) -/
+example : (match Document.parseLines docCfg 28 docSample with | .err .fuel => true | _ => false) = true := by decide +kernel
+
+/-- the theorems applied to the sample -/
+example (hinl : ∀ fn s, ∃ ks, Inline.tokenizeInner docCfg.span fn s = .ok ks) :
+    ∃ d, Document.parseLines docCfg 1782 docSample = .ok d :=
+  C01_document_terminates docCfg 1782 docSample docSample_nlEnd hinl (by decide +kernel)
+
+/-- the parse buffer of the sample as the kernel computes it: a two-line setext buffer, a list with
+    one item whose leader is "3.", a heading of level 2 -/
+example : (match blockPhase docCfg.block 40 docSample with
+    | .ok (⟨[.setext [_, _] _ _, .quote [.list [.mk _ _ _ _ ['3', '.'] _ _] _ _] _ _ _, .heading 2 _ _ _ _], _⟩, _) => true
+    | _ => false) = true := by decide +kernel
+
+/-- a table buffer as the kernel computes it: three lines, the second one the delimiter row, from
+    which `findall` returns the non-empty columns "---" and ":-:" -/
+example : (match blockPhase docCfg.block 40 (["| a | b |\n", "|---|:-:|\n", "| 1 | *2* |\n"].map String.toList) with
+    | .ok (⟨[.table [_, l1, _] 1 _ _], _⟩, _) =>
+        delimiterRow l1 && l1.contains '-' && findAligns l1 == ["---".toList, ":-:".toList]
+    | _ => false) = true := by decide +kernel
+
+/-! ## The silent inner fuels never truncate
+
+  `blockCodeLoop`, `codeFenceLoop`, `tableLoop`, `htmlBlockLoop`, `footnoteLines`, `skipBlanks` return
+  what they have when their fuel is 0 (no `.err`).  With more fuel than lines remain after the
+  cursor — every caller passes `fw.remaining + 1` for a cursor at or after `fw` — that branch never
+  ends the loop: the result is the same for every such fuel, i.e. the model loop equals the
+  unbounded Python loop. -/
+
+/-- **the fuel of every silently-fuelled block loop is irrelevant once it exceeds the number of
+    remaining lines** -/
+theorem C01_block_inner_fuel_irrelevant (fuel fuel' : Nat) (fw : FW) (h : fw.remaining < fuel) (h' : fw.remaining < fuel') :
+    (∀ buf tb, blockCodeLoop fuel fw buf tb = blockCodeLoop fuel' fw buf tb) ∧
+    (∀ ld p buf, codeFenceLoop ld p fuel fw buf = codeFenceLoop ld p fuel' fw buf) ∧
+    (∀ buf, tableLoop fuel fw buf = tableLoop fuel' fw buf) ∧
+    (∀ ec buf, htmlBlockLoop ec fuel fw buf = htmlBlockLoop ec fuel' fw buf) ∧
+    (∀ buf, footnoteLines fuel fw buf = footnoteLines fuel' fw buf) ∧
+    (∀ n, skipBlanks fuel fw n = skipBlanks fuel' fw n) :=
+  ⟨fun buf tb => blockCodeLoop_fuel fuel fuel' fw buf tb h h',
+   fun ld p buf => codeFenceLoop_fuel ld p fuel fuel' fw buf h h',
+   fun buf => tableLoop_fuel fuel fuel' fw buf h h',
+   fun ec buf => htmlBlockLoop_fuel ec fuel fuel' fw buf h h',
+   fun buf => footnoteLines_fuel fuel fuel' fw buf h h',
+   fun n => skipBlanks_fuel fuel fuel' fw n h h'⟩
+
+/-- the same for the loops that report `.err .fuel` (Paragraph.read, Quote.read, ListItem.read) -/
+theorem C01_block_inner_fuel_irrelevant_err (cfg : Cfg) (fuel fuel' : Nat) (fw : FW) (h : fw.remaining < fuel) (h' : fw.remaining < fuel') :
+    (∀ so buf, paragraphLoop cfg so fuel fw buf = paragraphLoop cfg so fuel' fw buf) ∧
+    (∀ buf fl, quoteLoop cfg fuel fw buf fl = quoteLoop cfg fuel' fw buf fl) ∧
+    (∀ pre buf nl, itemLoop cfg pre fuel fw buf nl = itemLoop cfg pre fuel' fw buf nl) :=
+  ⟨fun so buf => paragraphLoop_fuel cfg so fuel fuel' fw buf h h',
+   fun buf fl => quoteLoop_fuel cfg fuel fuel' fw buf fl h h',
+   fun pre buf nl => itemLoop_fuel cfg pre fuel fuel' fw buf nl h h'⟩
+
+/-- `Footnote.read`'s `while offset < len(string) - 1` loop: `len(string) + 2` rounds or more -/
+theorem C01_footnote_fuel_irrelevant (s : Str) (fuel fuel' : Nat) (h : s.length + 2 ≤ fuel) (h' : s.length + 2 ≤ fuel') :
+    footnoteRefs s fuel 0 [] = footnoteRefs s fuel' 0 [] :=
+  footnoteRefs_fuel s fuel fuel' 0 [] (by omega) (by omega) (by omega) (by omega)
+
+/-- the fuelled regex scanners: `column_align_pattern.findall` (`findAligns`), the tail loop of
+    `delimiter_row_pattern` (`delimiterRow`), the attribute loop of `_open_tag` (`attrs`), and
+    `escaped_pipe_pattern.sub` (`unescapePipes`) do not depend on their fuel once it exceeds the
+    length of the text -/
+theorem C01_scanner_fuel_irrelevant (s : Str) (fuel fuel' : Nat) (h : s.length < fuel) (h' : s.length < fuel') :
+    alignCols fuel s = alignCols fuel' s ∧ delimRest fuel s = delimRest fuel' s ∧ attrs fuel s = attrs fuel' s ∧
+    delimiterRowWith fuel s = delimiterRowWith fuel' s ∧
+    (∀ prev, Document.unescapePipes fuel prev s = Document.unescapePipes fuel' prev s) :=
+  ⟨alignCols_fuel fuel fuel' s h h', delimRest_fuel fuel fuel' s h h', attrs_fuel fuel fuel' s h h',
+   delimiterRowWith_fuel s fuel fuel' h h', fun prev => Document.unescapePipes_fuel fuel fuel' prev s h h'⟩
+
+/-- `delimiterRow` is `delimiterRowWith` at the fuel it passes -/
+example (line : Str) : delimiterRow line = delimiterRowWith (line.length + 1) line := delimiterRow_eq_with line
+
+/-- non-vacuity: a fenced block read with fuel 3 (two lines remain) and with fuel 1000 -/
+example :
+    let fw : FW := { lines := docBuf (["```\n", "x\n", "```\n", "y\n"].map String.toList), pos := 1 }
+    fw.remaining = 3 ∧ (codeFenceLoop "```".toList 0 4 fw []).1 = ["x\n".toList] ∧
+      codeFenceLoop "```".toList 0 4 fw [] = codeFenceLoop "```".toList 0 1000 fw [] := by
+  refine ⟨by decide +kernel, by decide +kernel, ?_⟩
+  exact (C01_block_inner_fuel_irrelevant 4 1000 _ (by decide +kernel) (by decide +kernel)).2.1 _ _ _
 
 end Mistletoe.Props.C01
